@@ -275,6 +275,17 @@ def run_case(case, seed):
                 r.count('order_checks')
             else:
                 r.count('order_checks_outside_window')
+    # linearity: a state of tiny norm (1e-9) with the DEFAULT relative threshold must be propagated just as exactly
+    if nz == 0 and h == 0.1 and case['r0'] == 'max':
+        sc_ = 1e-9
+        xs_ = sc_ * x0t
+        for scheme in ('lie', 'strang', 'yoshida', 'kahan_li'):
+            with r.op(scheme + ':tiny-state:call'):
+                Sx, Lx, Ix, Mx = [copy_comp(X) for X in comp0]
+                sol = fns[scheme](Sx, Lx, Ix, Mx, xs_, h, 2, threshold=1e-12, max_rank=200, normalize=0)
+                U_ = step_matrix(scheme, He, Ho, h)
+                if meta_problem(sol[-1]) is None:
+                    r.close(scheme + ':tiny-state', vec(sol[-1]) / sc_, U_ @ (U_ @ x0), 1e-8, 'initial norm %g, threshold 1e-12' % sc_)
     # history: the SAME component objects are passed again after their contents were changed in place (time-dependent
     # fields): the second call must use the new values
     if nz == 0 and h == 0.1 and case['r0'] == 1:
